@@ -81,7 +81,7 @@ theorem update_removes (sub : Str) (objs : List (Key × Obj)) (s s' : Store)
     cases r with
     | error e => simp at h
     | ok u =>
-      simp only [M.modify, Prod.mk.injEq] at h
+      simp only [M.get, M.modify, unlinkChildren, Prod.mk.injEq] at h
       obtain ⟨_, h⟩ := h
       subst h
       simp only [Store.isProjectOption]
